@@ -143,6 +143,8 @@ type Machine struct {
 	defs     int
 	held     map[*Cell]*Thread
 	rheld    map[*Cell]int
+	rheldBy  map[*Thread]map[*Cell]int
+	curInstr ssa.Instruction
 	globals  map[*ssa.Global]*Cell
 	steps    int
 	chanID   int
@@ -209,6 +211,7 @@ func (m *Machine) runPath(dec []int) {
 	m.ncount = map[string]int{}
 	m.held = map[*Cell]*Thread{}
 	m.rheld = map[*Cell]int{}
+	m.rheldBy = map[*Thread]map[*Cell]int{}
 	m.globals = map[*ssa.Global]*Cell{}
 	m.pathInit = map[*ssa.Package]bool{}
 	m.steps = 0
@@ -267,6 +270,18 @@ func (m *Machine) runPath(dec []int) {
 				}
 				m.sol.Pop()
 			}()
+		}
+	}
+	if m.cfg.RaceLog && end.kind == "ok" {
+		for _, k := range m.raceCandidates() {
+			if r := m.sol.Check(""); r == "sat" {
+				model, order := m.model()
+				m.sol.Pop()
+				m.recordViolation(Violation{Prop: m.cfg.Prop, Label: "race: " + k, Kind: "race", Pref: true, Model: model, Order: order,
+					Path: append([]int{}, m.dec[:m.pos]...)})
+			} else {
+				m.sol.Pop()
+			}
 		}
 	}
 	// kill remaining threads
